@@ -155,6 +155,13 @@ func runProperty(prop, tier, repo string, cs *Contracts, timeout int, verbose bo
 				}
 			}
 		}
+		for _, a := range c.Asserts {
+			for _, t := range a.Clause.Tags {
+				if t == prop {
+					tagged = true
+				}
+			}
+		}
 		for _, ls := range c.Loops {
 			for _, cl := range ls.Invariants {
 				for _, t := range cl.Tags {
